@@ -611,9 +611,16 @@ def run(ctx):
     direct(ctx)
     influence(ctx)
     long_axes(ctx)
+    from . import spell_common
+    spell_common.run(ctx, "C09")
+
 
 
 def replay(sub, case, p):
+    if case.get("kind") == "spelling":
+        from . import spell_common
+        spell_common.run(p, "C09")
+        return
     if case["kind"] == "win":
         _ungrouped_task(tuple(case["axis"]), p)
     elif case["kind"] == "far":
